@@ -1279,8 +1279,13 @@ _BTree_setstate(BTree *self, PyObject *state, int noval)
         }
         else
         {
+            /* PyObject_TypeCheck, not PyObject_IsInstance:  the child is
+             * about to be used as a C struct, and an object can claim any
+             * __class__ it likes (the pure-Python nodes claim to be
+             * instances of the C classes).
+             */
             if (!(SameType_Check(self, v) ||
-                  PyObject_IsInstance(v, (PyObject *)leaftype)))
+                  PyObject_TypeCheck(v, leaftype)))
             {
                 PyErr_Format(PyExc_TypeError,
                              "tree child %s is neither %s nor %s",
@@ -1299,7 +1304,7 @@ _BTree_setstate(BTree *self, PyObject *state, int noval)
     if (!firstbucket)
         firstbucket = (PyObject *)self->data->child;
 
-    if (!PyObject_IsInstance(firstbucket, (PyObject *)leaftype))
+    if (!PyObject_TypeCheck(firstbucket, leaftype))
     {
         PyErr_SetString(PyExc_TypeError,
                         "No firstbucket in non-empty BTree");
